@@ -697,3 +697,58 @@ package zygo
 //@ |  && env.linearstack.tos == old(env.linearstack.tos) && env.linearstack.elements == old(env.linearstack.elements)
 //@ C01,C03 loop 1 invariant fresh(trimmed) && trimmed != env.linearstack && wfs(trimmed) && trimmed.tos == rangeindex && rangeindex < stk.tos - i + 1 && 0 <= i && i <= stk.tos && stk.tos == old(env.linearstack.tos) && stk != trimmed && stk != env.linearstack
 //@ |  && env.linearstack.tos == old(env.linearstack.tos) && env.linearstack.elements == old(env.linearstack.elements)
+
+// ===========================================================================
+// C16  lazy parameters: one predicate decides, at every call route, which
+//      argument positions are delayed
+// ===========================================================================
+//@ macro lazyPos(f *SexpFunction, i int) bool = !(f.varargs && i >= f.nargs) && i >= 0 && i < len(f.lazyFormals) && f.lazyFormals[i]
+
+//@ func (*SexpFunction).IsLazyFormal
+//@ C16 pure
+//@ C16 nopanic
+//@ C16 ensures r0 == (i >= 0 && i < len(sf.lazyFormals) && sf.lazyFormals[i])
+
+//@ func (*SexpFunction).IsLazyCallArg
+//@ C16 pure
+//@ C16 ensures r0 == lazyPos(sf, i)
+
+//@ func (*SexpFunction).HasLazyFormals
+//@ C16 pure
+//@ C16 ensures r0 == (sf != nil && sf.hasLazyFormals)
+
+// only the # sigil marks a lazy formal; the summary flag is exactly "some position is lazy"
+//@ spec lazySym(s *SexpSymbol) bool = ?
+//@ func isLazyFormalSymbol
+//@ assume pure
+//@ assume ensures r0 == lazySym(sym)
+//@ func (*SexpFunction).SetFormalSymbols
+//@ C16 ensures positions: len(sf.lazyFormals) == len(argsyms) && forall(k, 0 <= k && k < len(argsyms) ==> sf.lazyFormals[k] == lazySym(old(argsyms[k])))
+//@ C16 ensures summary: iff(sf.hasLazyFormals, exists(k, 0 <= k && k < len(argsyms) && sf.lazyFormals[k]))
+//@ C16 loop 0 invariant -1 <= rangeindex && rangeindex < len(argsyms) && len(sf.lazyFormals) == len(argsyms) && fresh(sarr(sf.lazyFormals)) && soff(sf.lazyFormals) == 0
+//@ |  && forall(k, 0 <= k && k <= rangeindex ==> sf.lazyFormals[k] == lazySym(old(argsyms[k]))) && iff(sf.hasLazyFormals, exists(k, 0 <= k && k <= rangeindex && sf.lazyFormals[k]))
+
+// run-time call preparation: position i is wrapped unevaluated exactly when it is a
+// lazy position of a compiled (non-builtin) callee; everything else is evaluated
+//@ func (*Zlisp).PrepareCallExprArgs
+//@ C16 assert wrapped-only-if-lazy @before call NewSourceLazyArg[0]: function != nil && !function.user && lazyPos(function, i)
+//@ C16 assert strict-is-evaluated @before call EvalCallExpression[0]: !(function != nil && !function.user && function.hasLazyFormals && lazyPos(function, i))
+
+// compile-time path (tail self-calls)
+//@ func (*Generator).GenerateCallArgsForFunction
+//@ C16 assert wrapped-only-if-lazy @before call AddInstruction[0]: function != nil && lazyPos(function, i)
+//@ C16 assert strict-is-compiled @before call Generate[0]: !(function != nil && lazyPos(function, i))
+
+// apply / map: already evaluated values are wrapped as forced lazy arguments exactly at lazy positions
+//@ func NewValueLazyArg
+//@ C16 pure
+//@ C16 ensures fresh(r0) && r0.Forced && r0.Value == value && r0.Expr == value
+//@ func (*Zlisp).Apply
+//@ C16 assert wrapped-only-if-lazy @before call NewValueLazyArg[0]: lazyPos(fun, i)
+//@ C16 assert strict-pushed-as-is @before call PushExpr[1]: !lazyPos(fun, i) && arg1 == expr
+
+// forcing: a forced argument returns its memoised value and evaluates nothing;
+// a successful force memoises its result
+//@ func (*SexpLazyArg).Force
+//@ C16 ensures memo-hit: old(lazy != nil && lazy.Forced) ==> r1 == nil && r0 == old(lazy.Value) && lazy.Forced && lazy.Value == old(lazy.Value)
+//@ C16 ensures memoises: r1 == nil && lazy != nil ==> lazy.Forced && lazy.Value == r0
